@@ -1354,3 +1354,108 @@ theorem misspelt_certtype_activated_by_conversion :
       (fun r => challengeHooks r.cfg) = some [⟨.scep, .all, .deny, .deny⟩] := by decide
 
 end Verif.SCEP
+
+namespace Verif.SCEP
+open Verif
+
+/-! ## 10. the provisioner's own key material -/
+
+/-- **The provisioner's signer is its decrypter key, and that key is the one its certificate
+    certifies**, whatever combination of `decrypterKeyPEM`, `decrypterKey` (URI) and certificate is
+    configured: a CertRep signed with the provisioner's own pair therefore verifies under the
+    certificate it names — the certificate `GetCACert` lists first (`decrypter_is_advertised`). A
+    left-over PEM next to a URI never signs. -/
+theorem init_signer_is_certified_key (k : KeyCfg) (st : KeyState) (h : initKeys k = some st) :
+    st.signer = st.decrypter ∧ st.cert = k.cert ∧
+    (∀ d, st.decrypter = some d → st.cert = some d ∧ st.signatureVerifies = true) ∧
+    (st.decrypter = match k.uri with | some u => some u | none => k.pem) := by
+  unfold initKeys at h
+  cases hu : k.uri <;> cases hp : k.pem <;> cases hc : k.cert <;> simp [hu, hp, hc] at h
+  all_goals first
+    | (subst h; simp [KeyState.signatureVerifies])
+    | (obtain ⟨he, rfl⟩ := h; subst he; simp [KeyState.signatureVerifies])
+
+/-- `Init` fails on the key material exactly when there is a decrypter key without a certificate or
+    with a certificate of another key. -/
+theorem initKeys_fails_iff (k : KeyCfg) :
+    initKeys k = none ↔
+      ∃ d, (match k.uri with | some u => some u | none => k.pem) = some d ∧ k.cert ≠ some d := by
+  unfold initKeys
+  cases hu : k.uri <;> cases hp : k.pem <;> cases hc : k.cert <;> simp [hu, hp, hc]
+  all_goals first | omega | (constructor <;> intro h <;> first | exact h | exact fun e => h e.symm | exact fun e => h e.symm)
+
+/-- URI key 1 certified, stale PEM key 2: decrypter and signer are key 1 -/
+example : initKeys { cert := some 1, pem := some 2, uri := some 1 } =
+    some { decrypter := some 1, signer := some 1, cert := some 1 } := by decide
+
+end Verif.SCEP
+
+namespace Verif.SCEP
+open Verif
+
+/-! ## 11. the running CA: both listeners serve the configuration of the last reload -/
+
+/-- After `Reload` every listener the CA has serves the new configuration. -/
+theorem reload_replaces_every_listener {α : Type} (new : α) (r : Running α) (l : Listener) (x : α)
+    (h : (caReload new r).served l = some x) : x = new := by
+  cases l
+  · simp [caReload, Running.served] at h; exact h.symm
+  · simp only [caReload, Running.served, Option.map_eq_some_iff] at h
+    obtain ⟨_, _, rfl⟩ := h; rfl
+
+/-- …and it keeps the listeners it had. -/
+theorem reload_keeps_listeners {α : Type} (new : α) (r : Running α) (l : Listener) :
+    ((caReload new r).served l).isSome = (r.served l).isSome := by
+  cases l <;> simp [caReload, Running.served]
+
+theorem served_after_reloads_ne {α : Type} (r : Running α) (cfgs : List α) (hne : cfgs ≠ []) (l : Listener) (x : α)
+    (h : (cfgs.foldl (fun r c => caReload c r) r).served l = some x) : x = cfgs.getLast hne := by
+  induction cfgs generalizing r with
+  | nil => exact absurd rfl hne
+  | cons c cs ih =>
+    cases cs with
+    | nil =>
+      simp only [List.foldl_cons, List.foldl_nil] at h
+      simpa using reload_replaces_every_listener c r l x h
+    | cons d ds =>
+      simp only [List.foldl_cons] at h ih
+      have := ih (caReload c r) (by simp) h
+      simpa using this
+
+/-- After any sequence of reloads, what a listener serves is the configuration of the last one
+    (the start configuration if there was none). -/
+theorem served_after_reloads {α : Type} (c0 : α) (ins : Bool) (cfgs : List α) (l : Listener) (x : α)
+    (h : (cfgs.foldl (fun r c => caReload c r) (caStart c0 ins)).served l = some x) :
+    x = (c0 :: cfgs).getLast (by simp) := by
+  cases cfgs with
+  | nil =>
+    cases l
+    · simp [caStart, Running.served] at h; simpa using h.symm
+    · simp only [caStart, Running.served, List.foldl_nil] at h
+      split at h <;> simp at h
+      simpa using h.symm
+  | cons c cs =>
+    have := served_after_reloads_ne (caStart c0 ins) (c :: cs) (by simp) l x h
+    simpa using this
+
+/-- **`challenge_required` on a running CA**: on the TLS listener and on the plain-HTTP listener
+    alike, after any number of reloads with changed configurations, a certificate implies that the
+    secret or challenge webhooks of the *latest* configuration accepted the challenge (an old secret
+    stops working with the reload that removes it). -/
+theorem challenge_required_served (R : List RouteEntry) (S : Server) (n : Nat) (c0 : Config) (ins : Bool)
+    (cfgs : List Config) (l : Listener) (c : Config) (h : HttpReq) (q : Req) (sv : Served)
+    (hserved : (cfgs.foldl (fun r c => caReload c r) (caStart c0 ins)).served l = some c)
+    (hm : selectValidationMethod ((c0 :: cfgs).getLast (by simp)) ≠ .none)
+    (hrun : serve asCoded R S (initN (n + 1) (Prov.new c)) h q = .val sv)
+    (hc : sv.carriesCert = true) : Accepted ((c0 :: cfgs).getLast (by simp)) q := by
+  have hlast := served_after_reloads c0 ins cfgs l c hserved
+  subst hlast
+  exact challenge_required_http R S n _ h q sv hm hrun hc
+
+/-- secret rotated by a reload: on the insecure listener the old secret is refused afterwards -/
+example :
+    ((caReload (α := Config) { secret := [110], hooks := [] }
+        (caStart { secret := [111], hooks := [] } true)).served .insecure) =
+      some { secret := [110], hooks := [] } := by decide
+
+end Verif.SCEP
